@@ -180,6 +180,26 @@ interned_family!(S2, q2, 2);
 interned_family!(S3, q3, 3);
 interned_family!(SM, qm, usize::MAX);
 
+// natural-hash families (ordinary `u32` field): values spread over all shards, so a reclaimed slot
+// usually gets a value with a DIFFERENT hash than its old occupant (the constant-hash families
+// cannot see a mix-up of old and new hash). No Lean twin (shard choice is internal): oracle only.
+macro_rules! natural_family {
+    ($S:ident, $q:ident, $revs:expr) => {
+        #[salsa::interned(revisions = $revs)]
+        struct $S<'db> {
+            f: u32,
+        }
+        #[salsa::tracked(returns(copy))]
+        fn $q(db: &dyn salsa::Database, d: Din) -> u64 {
+            use salsa::plumbing::AsId;
+            let s = $S::new(db, d.x(db));
+            s.as_id().as_bits()
+        }
+    };
+}
+natural_family!(N1, qn1, 1);
+natural_family!(N2, qn2, 2);
+
 #[salsa::db]
 #[derive(Clone)]
 struct Db {
@@ -224,6 +244,8 @@ impl Intern {
                     1 => q1(&self.db, d),
                     2 => q2(&self.db, d),
                     3 => q3(&self.db, d),
+                    11 => qn1(&self.db, d),
+                    12 => qn2(&self.db, d),
                     _ => qm(&self.db, d),
                 }
             } else {
@@ -231,6 +253,8 @@ impl Intern {
                     1 => S1::new(&self.db, BadHash(field)).as_id().as_bits(),
                     2 => S2::new(&self.db, BadHash(field)).as_id().as_bits(),
                     3 => S3::new(&self.db, BadHash(field)).as_id().as_bits(),
+                    11 => N1::new(&self.db, field).as_id().as_bits(),
+                    12 => N2::new(&self.db, field).as_id().as_bits(),
                     _ => SM::new(&self.db, BadHash(field)).as_id().as_bits(),
                 }
             }
@@ -264,6 +288,8 @@ fn run_intern(text: &str, out: &mut dyn std::io::Write) {
                     "1" => 1,
                     "2" => 2,
                     "3" => 3,
+                    "n1" => 11,
+                    "n2" => 12,
                     "max" => 0,
                     _ => 99,
                 };
